@@ -24,7 +24,11 @@ func dispatch() pbt.Dispatch {
 }
 
 func probes() pbt.Probes {
-	return pbt.KnownCaseProbes("known", func(part string, raw json.RawMessage) pbt.Verdict { return fedPart.CheckRaw(raw) })
+	p := pbt.KnownCaseProbes("known", func(part string, raw json.RawMessage) pbt.Verdict { return fedPart.CheckRaw(raw) })
+	for id, def := range crashProbes() {
+		p[id] = def
+	}
+	return p
 }
 
 func TestMinimize(t *testing.T) {
